@@ -479,7 +479,10 @@ def run(tier="quick", replay=None):
             rv = s["rv"]
             if rv["k"] == "agg" and rv.get("agg") == "adt" and rv.get("variant") == "Blob":
                 l = op_local(rv["ops"][0])
-                src = fl.back_pure([l]) if l is not None else set()
+                is_accessor = lambda x: any((callee_of(t) or "").endswith("Allocator::atom") or (callee_of(t) or "").endswith("Allocator::node")
+                                            for _, t in fl.call_defs.get(x, []))
+                # the slice stops at the allocator accessor: how the node id was obtained (pop, ?, match) is not the payload's business
+                src = fl.back_pure([l], stop=is_accessor) if l is not None else set()
                 callees = set()
                 for x in src:
                     for _, t in fl.call_defs.get(x, []):
@@ -519,7 +522,55 @@ class ByteExpr(Expr):
                     if idx:
                         off = ev(self.local(idx[0]["idx"], depth + 1), 0)
                         return ("byte", off)
+                    cidx = [e for e in p["p"] if isinstance(e, dict) and "cidx" in e and not e.get("from_end")]
+                    if cidx:
+                        # element k of an array produced by uN::to_be_bytes / to_le_bytes
+                        arr = self.array_of_call(p["l"], depth + 1)
+                        if arr is not None and cidx[0]["cidx"] < len(arr):
+                            return arr[cidx[0]["cidx"]]
+        if len(ds) == 1 and ds[0][0] == "call":
+            t = ds[0][2]
+            c = callee_of(t) or ""
+            if c.endswith("::from_be_bytes") or c.endswith("::from_le_bytes"):
+                elems = self.array_elems(op_local(t["args"][0]), depth + 1)
+                if elems is not None:
+                    n = len(elems)
+                    order = list(range(n)) if c.endswith("from_be_bytes") else list(reversed(range(n)))
+                    e = None
+                    for pos, i in enumerate(order):
+                        term = ("Shl", ("cast", "u64", elems[i]), ("c", 8 * (n - 1 - pos)))
+                        e = term if e is None else ("BitOr", e, term)
+                    return e
         return Expr.local(self, l, depth)
+
+    def array_elems(self, l, depth):
+        """Element expressions of a local defined by one array aggregate."""
+        if l is None:
+            return None
+        ds = self.defs.whole_defs(l)
+        if len(ds) == 1 and ds[0][0] == "stmt":
+            rv = ds[0][3]["rv"]
+            if rv["k"] == "agg" and rv.get("agg") == "array":
+                return [self.operand(o, depth + 1) for o in rv["ops"]]
+            if rv["k"] == "use" and op_local(rv["op"]) is not None and not op_place(rv["op"])["p"]:
+                return self.array_elems(op_local(rv["op"]), depth + 1)
+        return None
+
+    def array_of_call(self, l, depth):
+        """Bytes of the integer x when l = x.to_be_bytes() / x.to_le_bytes() (4-byte integers)."""
+        ds = self.defs.whole_defs(l)
+        if len(ds) == 1 and ds[0][0] == "stmt" and ds[0][3]["rv"]["k"] == "use" and op_local(ds[0][3]["rv"]["op"]) is not None \
+                and not op_place(ds[0][3]["rv"]["op"])["p"]:
+            return self.array_of_call(op_local(ds[0][3]["rv"]["op"]), depth + 1)
+        if len(ds) == 1 and ds[0][0] == "call":
+            t = ds[0][2]
+            c = callee_of(t) or ""
+            if c.endswith("::to_be_bytes") or c.endswith("::to_le_bytes"):
+                x = self.operand(t["args"][0], depth + 1)
+                n = 4
+                be = [("cast", "u8", ("Shr", x, ("c", 8 * (n - 1 - i)))) for i in range(n)]
+                return be if c.endswith("to_be_bytes") else list(reversed(be))
+        return None
 
 
 def evb(e, size, bytes_):
@@ -564,6 +615,8 @@ def check_byte_order(prog, R):
         elif rv["k"] == "use":
             e = ge.operand(rv["op"])
         val = evb(e, 0, sample) if e else None
+    if val is None:
+        val = evb(ge.local(0), 0, sample)      # result produced by a call (u32::from_be_bytes) or a plain expression
     R.check(val == be, "R08.d", "R08.d|get_u32-big-endian", "%s:%s" % (g.file, g.line),
             "auto: get_u32([11 22 33 44]) evaluates symbolically to 0x11223344 (most significant byte first, like the writer's "
             "size bytes)",
@@ -579,6 +632,12 @@ def check_byte_order(prog, R):
                 off = ev(se.local(idx[0]["idx"]), 0)
                 rv = st["rv"]
                 e = ("cast", rv["ty"], se.operand(rv["op"])) if rv["k"] == "cast" else se.operand(rv["op"]) if rv["k"] == "use" else ("?",)
+                if rv["k"] == "use" and e == ("?",) and op_place(rv["op"]) is not None and op_place(rv["op"])["p"]:
+                    pp = op_place(rv["op"])
+                    cidx = [x for x in pp["p"] if isinstance(x, dict) and "cidx" in x and not x.get("from_end")]
+                    arr = se.array_of_call(pp["l"], 0) if cidx else None
+                    if arr is not None and cidx[0]["cidx"] < len(arr):
+                        e = arr[cidx[0]["cidx"]]
                 written[off] = ev(e, be)
         want = {0: 0x11, 1: 0x22, 2: 0x33, 3: 0x44}
         R.check(written == want, "R08.d", "R08.d|set_u32-inverse-of-get_u32", "%s:%s" % (s.file, s.line),
